@@ -697,6 +697,10 @@ class tzfile(_tzinfo):
             lastdst = tti.isdst
             lastoffset = offset
 
+            if i == timecnt - 1:
+                # After the last transition ttinfo_std is used, see _get_ttinfo
+                offset = out.ttinfo_std.offset
+
             out.trans_list.append(out.trans_list_utc[i] +
                                   min(prevoffset, offset))
 
